@@ -19,7 +19,9 @@ from concurrent.futures import ThreadPoolExecutor
 VERIF = os.path.dirname(os.path.dirname(os.path.abspath(__file__)))
 REPO = os.environ.get("VERIF_REPO", "/repo")
 COQ = os.path.join(VERIF, "coq")
-BUILD = os.path.join(VERIF, "build")
+BUILD = os.path.join(VERIF, "build") if not os.environ.get("VERIF_BUILD_TAG") else os.path.join(VERIF, "build", "tag_" + os.environ["VERIF_BUILD_TAG"])
+# evidence / replays of evaluation runs against scratch copies go elsewhere (never into /verif/evidence)
+OUT = os.environ.get("VERIF_OUT", VERIF)
 SCRATCH = os.path.join(BUILD, "scratch")
 
 os.environ.setdefault("PYTHONHASHSEED", "0")
